@@ -20,6 +20,7 @@ import re
 import shutil
 import subprocess
 import sys
+import threading
 import time
 
 ROOT = os.path.dirname(os.path.abspath(__file__))
@@ -54,6 +55,9 @@ TRUSTED_BASE = [
     "tools/translate.py + the C++ front ends it calls for every Gen/*.lean table",
     "g++ 12.2, libstdc++, libgomp, Eigen 3.4, ASan/UBSan for the harness side; Lean compiler/runtime (GMP Nat/Int/Rat) for the driver",
 ]
+
+
+_RETRY = threading.local()
 
 
 class SplitMix64:
@@ -135,13 +139,25 @@ class Lock:
 class CompileSlot:
     """at most N_SLOTS harness compilations at a time across all concurrently running checks (an ASan build of
     tapkee.hpp needs ~2 GB; unbounded parallel builds got compilers OOM-killed)"""
-    N_SLOTS = 6
+    N_SLOTS = 6      # upper bound; the effective number is scaled to the memory available now (see slots())
+
+    @classmethod
+    def slots(cls):
+        """an ASan -O1 build of tapkee.hpp peaks at ~3.5 GB: allow one compile per ~4 GB of MemAvailable, at least 1"""
+        try:
+            for line in open("/proc/meminfo"):
+                if line.startswith("MemAvailable:"):
+                    gb = int(line.split()[1]) / (1024.0 * 1024.0)
+                    return max(1, min(cls.N_SLOTS, int(gb // 4)))
+        except Exception:
+            pass
+        return 2
 
     def __enter__(self):
         os.makedirs(BUILD_DIR, exist_ok=True)
         self.fh = None
         while self.fh is None:
-            for i in range(self.N_SLOTS):
+            for i in range(self.slots()):
                 fh = open(os.path.join(BUILD_DIR, "compile-slot-%d.lock" % i), "w")
                 try:
                     fcntl.flock(fh, fcntl.LOCK_EX | fcntl.LOCK_NB)
@@ -435,15 +451,16 @@ class Ctx:
                 break
             outs += out[:n]
             summ = self.sanitizer_summary(err) or ("timeout" if rc in (-999, -14) else "crash:rc=%d" % rc)
-            if summ == "timeout" and not getattr(self, "_in_timeout_retry", False):
-                # a watchdog firing can be machine load, not a hang: the case is confirmed alone before it is believed
-                self._in_timeout_retry = True
+            if (summ == "timeout" or rc == -9) and not getattr(_RETRY, "active", False):
+                # a watchdog firing (or a SIGKILL from memory pressure) can be machine load, not a hang: the case is
+                # confirmed alone before it is believed (flag is per thread: checks call this from worker threads)
+                _RETRY.active = True
                 try:
                     time.sleep(2.0)
                     again = self.run_impl_cases(binary, [todo[n]], env=env, timeout=timeout, args=args)
                 finally:
-                    self._in_timeout_retry = False
-                if again and not again[0].startswith("abort:timeout"):
+                    _RETRY.active = False
+                if again and not again[0].startswith("abort:timeout") and not again[0].startswith("abort:crash:rc=-9"):
                     outs.append(again[0])
                     self.stat("watchdog-fired-but-case-passed-alone")
                     todo = todo[n + 1:]
